@@ -3,14 +3,41 @@
 package saml2
 
 import (
+	"crypto"
+
 	"github.com/beevik/etree"
+	dsig "github.com/russellhaering/goxmldsig"
 )
+
+// vhCanon: a caller-configured canonicaliser (delegates to the exclusive one so that native replays verify).
+type vhCanon struct{ inner dsig.Canonicalizer }
+
+func (c *vhCanon) Canonicalize(el *etree.Element) ([]byte, error) { return c.inner.Canonicalize(el) }
+func (c *vhCanon) Algorithm() dsig.AlgorithmID                    { return c.inner.Algorithm() }
+
+// vhExpectedSigning: the algorithm identifiers the configuration prescribes (library default: RSA-SHA256).
+func vhExpectedSigning(alg string) (crypto.Hash, string, string) {
+	switch alg {
+	case "http://www.w3.org/2000/09/xmldsig#rsa-sha1":
+		return crypto.SHA1, alg, "http://www.w3.org/2000/09/xmldsig#sha1"
+	case "http://www.w3.org/2001/04/xmldsig-more#rsa-sha384":
+		return crypto.SHA384, alg, "http://www.w3.org/2001/04/xmldsig-more#sha384"
+	case "http://www.w3.org/2001/04/xmldsig-more#rsa-sha512":
+		return crypto.SHA512, alg, "http://www.w3.org/2001/04/xmlenc#sha512"
+	}
+	return crypto.SHA256, "http://www.w3.org/2001/04/xmldsig-more#rsa-sha256", "http://www.w3.org/2001/04/xmlenc#sha256"
+}
 
 // vhCheckSignedRoot: Issuer first, then exactly one ds:Signature (index 1), then the other children; the
 // Signature carries SignedInfo / SignatureValue / KeyInfo with the signing certificate, references the
 // message ID, declares the enveloped transform, and its digest was computed over the whole message as
 // returned minus the Signature itself.
 func vhCheckSignedRoot(sp *SAMLServiceProvider, root *etree.Element, rest []string, cert []byte) {
+	wantHash, wantSigAlg, wantDigestAlg := vhExpectedSigning(sp.SignAuthnRequestsAlgorithm)
+	wantC14N := "http://www.w3.org/2006/12/xml-c14n11"
+	if sp.SignAuthnRequestsCanonicalizer != nil {
+		wantC14N = string(sp.SignAuthnRequestsCanonicalizer.Algorithm())
+	}
 	names := vhChildNames(root)
 	want := append([]string{"saml:Issuer", "ds:Signature"}, rest...)
 	vAssert("C13.signature-immediately-after-issuer", vhSameNames(names, want...))
@@ -39,10 +66,32 @@ func vhCheckSignedRoot(sp *SAMLServiceProvider, root *etree.Element, rest []stri
 			}
 		}
 		vAssert("C13.enveloped-signature-transform-declared", enveloped)
+		if dm := ref.SelectElement("DigestMethod"); dm != nil {
+			da, _ := vhAttr(dm, "Algorithm")
+			vAssert("C13.declared-digest-method-is-the-configured-hash", da == wantDigestAlg)
+		}
+		c14nDeclared := false
+		if tr := ref.SelectElement("Transforms"); tr != nil {
+			for _, t := range tr.ChildElements() {
+				if a, _ := vhAttr(t, "Algorithm"); a == wantC14N {
+					c14nDeclared = true
+				}
+			}
+		}
+		vAssert("C13.reference-declares-the-configured-canonicaliser", c14nDeclared)
+	}
+	if cm := si.SelectElement("CanonicalizationMethod"); cm != nil {
+		ca, _ := vhAttr(cm, "Algorithm")
+		vAssert("C13.declared-canonicalisation-is-the-configured-one-or-the-default", ca == wantC14N)
+		vAssert("C13.digests-use-the-configured-canonicaliser-object", vDigestCanonIs(0, sp.SignAuthnRequestsCanonicalizer) && vDigestCanonIs(1, sp.SignAuthnRequestsCanonicalizer))
+	} else {
+		vAssert("C13.canonicalisation-method-present", false)
 	}
 	if sm := si.SelectElement("SignatureMethod"); sm != nil {
 		alg, _ := vhAttr(sm, "Algorithm")
 		vAssert("C13.declared-signature-method-is-the-one-used", alg == sp.SigningContext().GetSignatureMethodIdentifier() && alg != "")
+		vAssert("C13.signature-method-is-the-configured-one-or-the-default", alg == wantSigAlg)
+		vAssert("C13.digest-and-signature-computed-with-the-configured-hash", vDigestHashIs(0, wantHash) && vDigestHashIs(1, wantHash))
 	} else {
 		vAssert("C13.signature-method-present", false)
 	}
@@ -69,6 +118,10 @@ func vhCheckSignedRoot(sp *SAMLServiceProvider, root *etree.Element, rest []stri
 func VH_C13_signed_documents() {
 	sp := vhBuilderSP()
 	sp.SignAuthnRequests = true
+	sp.SignAuthnRequestsAlgorithm = vString("signAlgorithmConfigured")
+	if vFlag("custom-canonicalizer") {
+		sp.SignAuthnRequestsCanonicalizer = &vhCanon{inner: dsig.MakeC14N10ExclusiveCanonicalizerWithPrefixList("")}
+	}
 	key := vRSAKey("sp")
 	cert := vSPCertBytes()
 	ks := &vhKS{key: key, cert: cert, fail: vFlag("keystore.unavailable")}
